@@ -423,6 +423,7 @@ class Tracer:
 
     def end(self, rec, exc=None):
         rec["post"] = self.delta()
+        self._last_rec_cpu = time.process_time()
         rec["raw_rows"] = self.rows
         rows = [self.parse_row(r) for r in self.rows]
         for r in rows:
@@ -471,13 +472,16 @@ def _install(tr: Tracer):
             exc = e
             raise
         finally:
-            tr.end(rec, exc)
-            if rec["size"] == 0 and tr.recs and len(tr.recs) >= 2 and tr.recs[-2]["k"] == "step":
-                tr.zero_steps += 1
-                if tr.zero_steps > ZERO_STEP_LIMIT:
-                    raise HangDetected(f"{ZERO_STEP_LIMIT} consecutive zero-length clock steps without an event")
-            elif rec["size"] != 0:
-                tr.zero_steps = 0
+            if isinstance(exc, (HangDetected, Truncated)):
+                tr.cur = None      # the watchdog interrupted this action: it is not part of the trace (the exception goes on)
+            else:
+                tr.end(rec, exc)
+                if rec["size"] == 0 and tr.recs and len(tr.recs) >= 2 and tr.recs[-2]["k"] == "step":
+                    tr.zero_steps += 1
+                    if tr.zero_steps > ZERO_STEP_LIMIT:
+                        raise HangDetected(f"{ZERO_STEP_LIMIT} consecutive zero-length clock steps without an event")
+                elif rec["size"] != 0:
+                    tr.zero_steps = 0
 
     def handle(self, event):
         if self is not tr.sim:
@@ -510,13 +514,16 @@ def _install(tr: Tracer):
                     del self._workload_loader.get_next_workload
                 except AttributeError:
                     pass
-            lp = self._last_scheduler_placements
-            if d["ty"] == 11 and lp is not None:
-                rec["sched"] = {
-                    "rt": tr.tm(lp.runtime),
-                    "decs": [tr_dec(tr, p) for p in lp],
-                }
-            tr.end(rec, exc)
+            if isinstance(exc, (HangDetected, Truncated)):
+                tr.cur = None      # the watchdog interrupted this action: it is not part of the trace (the exception goes on)
+            else:
+                lp = self._last_scheduler_placements
+                if d["ty"] == 11 and lp is not None:
+                    rec["sched"] = {
+                        "rt": tr.tm(lp.runtime),
+                        "decs": [tr_dec(tr, p) for p in lp],
+                    }
+                tr.end(rec, exc)
 
     GST_ARGS = ["lookahead", "preemption", "retract_schedules", "worker_pools", "policy", "branch_prediction_accuracy",
                 "release_taskgraphs", "debug"]
@@ -709,7 +716,12 @@ def run_world(world, wall_limit=20):
         uninstall = _install(tr)
         sim.simulate()
     except HangDetected as h:
-        end["hang"] = str(h)
+        if ("cpu time limit" in str(h) and tr is not None and tr.recs
+                and time.process_time() - getattr(tr, "_last_rec_cpu", 0.0) < 10.0 and getattr(tr, "_since_progress", 0) < NO_PROGRESS_LIMIT):
+            # a long, still progressing run that is merely expensive to trace: cut, no verdict
+            end["truncated"] = str(h)
+        else:
+            end["hang"] = str(h)
     except Truncated as t:
         end["truncated"] = str(t)
     except Exception as e:  # noqa
@@ -791,6 +803,7 @@ def run_worlds(worldlist, procs=16, wall=20):
     ctx = mp.get_context("fork")
     from .common import _pool_worker_init
 
+    # (a fresh process per world - maxtasksperchild=1 - was tried: the fork overhead tripled the run time)
     pool = ctx.Pool(procs, maxtasksperchild=50, initializer=_pool_worker_init)
     try:
         res = pool.map(_worker, [(w, wall) for w in worldlist], chunksize=1)
